@@ -97,6 +97,27 @@ def closePathW : W := cmdWord cClosePath 1
 def closed (r : List (Pt Int)) : Bool :=
   decide (r.length ≥ 4) && (r.head? == r.getLast?)
 
+/-- One ring when `Ring.Closed()` answers `cl`.  Go decides `Closed()` on the float64 points and
+    builds the command stream from their `int32` truncations `r`; on integer-valued coordinates
+    `cl = closed r` and this is `encRing` (`encRing_eq_encRingG`). -/
+def encRingG (cl : Bool) (c : Cur) (r : List (Pt Int)) : R (Cur × List W) :=
+  match r with
+  | [] => .ok (c, [])
+  | p :: rest =>
+    let m := moveTo c [p]
+    let body := if cl then rest.dropLast else rest
+    let n := lineTo m.1 body
+    .ok (n.1, m.2 ++ n.2 ++ [closePathW])
+
+/-- A ring with fractional coordinates that is open as float64 points but whose truncations close
+    (e.g. (0.5,0),(4,0),(4,4),(0,0)) is written with ALL its vertices after the first in the LineTo:
+    exactly like the truncated ring with its first vertex appended once more
+    (`encRingG_false_eq_reopen`).  The driver feeds such rings to the integer model in this form. -/
+def reopen (r : List (Pt Int)) : List (Pt Int) :=
+  match r with
+  | [] => []
+  | p :: _ => r ++ [p]
+
 /-- One line of a (multi)linestring: `MoveTo(ls[0]); LineTo(ls[1:])`; a line without vertices is
     skipped (since fix 8e178c2; `ls[0]` used to panic). -/
 def encLine (c : Cur) (l : List (Pt Int)) : R (Cur × List W) :=
@@ -319,7 +340,9 @@ deriving DecidableEq, Repr, Inhabited
 /-- A property value by Go dynamic type.  `json t` is an uncomparable value (slice, map)
     whose `json.Marshal` text is `t` (`encoding/json` is trusted: the harness supplies the text);
     `jsonFail` an uncomparable value that `json.Marshal` rejects; `unsupported` a comparable
-    value of a type `encodeValue` has no case for. -/
+    value of a type `encodeValue` has no case for; `stringer tag s` a comparable value of the
+    `fmt.Stringer` type number `tag` whose `String()` is `s` (the types used have an injective
+    `String()`, so two such values are `==` iff tag and text agree). -/
 inductive PVal where
   | str (s : String)
   | bool (b : Bool)
@@ -331,6 +354,7 @@ inductive PVal where
   | json (text : String)
   | jsonFail
   | unsupported (tag : Nat)
+  | stringer (tag : Nat) (s : String)
 deriving DecidableEq, Repr, Inhabited
 
 /-- `vectortile.Tile_Value` (first field present, in field-number order; `empty` = none). -/
@@ -370,6 +394,7 @@ def keyEq : PVal → PVal → Bool
   | .f32 a, .f32 b => f32Eq a b
   | .f64 a, .f64 b => f64Eq a b
   | .unsupported a, .unsupported b => a == b
+  | .stringer a s, .stringer b t => a == b && s == t
   | _, _ => false
 
 /-- `keyValueEncoder`: `keyMap` / `valueMap` are the inverse indexes of `Keys` / `Values`
@@ -395,6 +420,7 @@ def encodeValue : PVal → R TVal
   | .f32 b => .ok (.float b)
   | .f64 b => .ok (.double b)
   | .bool b => .ok (.bool b)
+  | .stringer _ s => .ok (.str s)   -- `case fmt.Stringer` (second case of the switch)
   | _ => .err .valEnc
 
 /-- First step of `kve.Value`: nil and uncomparable values become their JSON text. -/
@@ -768,6 +794,7 @@ def idWF : IdVal → Bool
 def pvalWF : PVal → Bool
   | .jsonFail => false
   | .unsupported _ => false
+  | .stringer _ _ => false   -- not in the value universe of the quantifier
   | .sint _ v => decide (-(2^63 : Int) ≤ v ∧ v < (2^63 : Int))
   | .uint _ v => decide (v < 2^64)
   | _ => true
@@ -814,6 +841,56 @@ def gvalNoDupClose : GVal Int → Bool
 def featureExact (f : Feature) : Bool := singleColl f.geom && gvalNoDupClose f.geom && noNegZero f.props
 def exactDomain (ls : List Layer) : Bool := ls.all fun l => l.features.all featureExact
 
+/-! #### the weakest side conditions under which the code is exact -/
+
+/-- Two property values that are the two zeros (+0 / −0) of one Go float type: the value table,
+    keyed by Go `==`, keeps only the one it sees first. -/
+def zeroClash : PVal → PVal → Bool
+  | .f64 a, .f64 b => f64IsZero a && f64IsZero b && a != b
+  | .f32 a, .f32 b => f32IsZero a && f32IsZero b && a != b
+  | _, _ => false
+
+/-- no two values of the list are the two zeros of one float type -/
+def noZeroClash (vs : List PVal) : Bool := vs.all fun a => vs.all fun b => !zeroClash a b
+
+/-- every property value of a layer (one value table per layer) -/
+def layerVals (l : Layer) : List PVal := l.features.flatMap fun f => f.props.map (·.2)
+
+/-- `exactDomain` with the negative-zero clause weakened to what the code needs: a lone −0.0
+    (no +0.0 of the same float type in the same layer) round-trips bit for bit. -/
+def layerExactZ (l : Layer) : Bool :=
+  (l.features.all fun f => singleColl f.geom && gvalNoDupClose f.geom) && noZeroClash (layerVals l)
+def exactDomainZ (ls : List Layer) : Bool := ls.all layerExactZ
+
+/-- The rings of a geometry, in the order the encoder writes them (the rings `decodePolygon`
+    evaluates `Ring.Orientation` on). -/
+def ringsOf : Geom Int → List (List (Pt Int))
+  | .ring r => [r]
+  | .polygon p => p
+  | .multiPolygon ps => ps.flatten
+  | .bound a b => [boundRing a b]
+  | _ => []
+
+def gvalRings : GVal Int → List (List (Pt Int))
+  | .val (.collection gs) => gs.flatMap ringsOf
+  | .val g => ringsOf g
+  | _ => []
+
+/-- The orientation function the decoder runs (Go: the float64 shoelace of `Ring.Orientation`)
+    gives the exact sign on every ring of the input.  (Known finding regroup-rounding: false for
+    some thin rings at |v| ≥ 2^27.) -/
+def oriAgree (ori : List (Pt Int) → Int) (ls : List Layer) : Prop :=
+  ∀ l ∈ ls, ∀ f ∈ l.features, ∀ r ∈ gvalRings f.geom, ori r = oriInt r
+
+/-- `float64(id)`: `decoder.Feature` hands the uint64 id out as a float64 (unmarshal.go:185);
+    exact below 2^53 (`idWF`), rounded to nearest-even above.  `DFeature.id` keeps the uint64; this
+    conversion is applied when a decoded feature is printed / compared. -/
+def idFloat (n : Nat) : UInt64 := i2f n
+
+/-- `KVE.Inv` with the zero clause relative to the values `vs` still to come in the layer. -/
+def KVE.InvZ (vs : List PVal) (e : KVE) : Prop :=
+  ∀ p ∈ e.vals, encodeValue p.1 = .ok p.2 ∧ ∀ v ∈ vs, zeroClash v p.1 = false
+
 /-- Encode, then decode, one geometry. -/
 def geometryRT (g : Geom Int) : R (Geom Int) :=
   match encodeGeometry g with
@@ -852,6 +929,7 @@ def widen : PVal → DVal
   | .json t => .str t
   | .jsonFail => .nil
   | .unsupported _ => .nil
+  | .stringer _ s => .str s
 
 /-- The decoded property map of the specification: keys in sorted order, values widened. -/
 def expectProps (ps : List (String × PVal)) : List (String × DVal) :=
